@@ -41,12 +41,16 @@ theorem C04_same_framing (ilA zcA ilB zcB : Bool) (ops : List Op) :
   obtain ⟨b1, b2, b3, -⟩ := h.2 hb
   exact ⟨a1.trans b1.symm, a2.trans b2.symm, a3.trans b3.symm⟩
 
+/-- what negotiation and data transfer depend on -/
+def core (e : Ep) : Nat × Bool × Bool × Bool × Bool × Bool × Bool × Bool × Bool :=
+  (e.st, e.pil, e.pfwd, e.pifwd, e.sendZero, e.uil, e.ufwd, e.uifwd, e.hasCookie)
+
 /-- Stale or duplicated handshake packets never disturb an established endpoint: ANY INIT, INIT-ACK,
 COOKIE-ECHO or COOKIE-ACK (arbitrary field values, with or without checksum) leaves it unchanged;
 the only possible reply is a COOKIE-ACK to a COOKIE-ECHO carrying its own cookie. -/
 theorem C04_stale_harmless (e : Ep) (p : Pkt) (he : e.st = stEstablished) :
     (handle e p).1 = e ∧
-    ((handle e p).2 = [] ∨ (∃ c, p.msg = .cookieEcho c ∧ c = e.id ∧ (handle e p).2 = [mkPkt e .cookieAck])) := by
+    ((handle e p).2 = [] ∨ (∃ c, p.msg = .cookieEcho c ∧ c = e.id ∧ (handle e p).2 = [.cookieAck])) := by
   unfold handle
   split
   · exact ⟨rfl, Or.inl rfl⟩
@@ -64,36 +68,72 @@ theorem C04_stale_harmless (e : Ep) (p : Pkt) (he : e.st = stEstablished) :
           exact ⟨rfl, Or.inr ⟨c, hm, by simpa using hc, rfl⟩⟩
     · simp [handleCookieAck, he, stEstablished, stCookieEchoed]
 
-/-- established is absorbing for the handshake machinery: no sequence of further handshake events
-(deliveries of any old packet, timer expiries, a second start) takes an endpoint out of it or changes
-what it negotiated. -/
+/-- established is absorbing for the handshake machinery: no further handshake event (delivery of any old
+packet, timer expiry, queued retransmission, write-loop pass, a second start) takes an endpoint out of it or
+changes anything it negotiated. -/
 theorem C04_established_stable (s : Sys) (op : Op) :
-    (s.a.st = stEstablished → (s.step op).a = s.a) ∧ (s.b.st = stEstablished → (s.step op).b = s.b) := by
+    (s.a.st = stEstablished → core (s.step op).a = core s.a) ∧
+    (s.b.st = stEstablished → core (s.step op).b = core s.b) := by
+  have hflush : ∀ (e : Ep) (m : List Msg), core (flush e m).1 = core e := by intro e m; rfl
+  have ht1i : ∀ e : Ep, (t1Init e).1 = e := by intro e; unfold t1Init; split <;> rfl
+  have ht1c : ∀ e : Ep, (t1Cookie e).1 = e := by intro e; unfold t1Cookie; split <;> rfl
   constructor
   · intro he
     cases op with
-    | start x => cases x <;> simp [Sys.step, Sys.ep, Sys.put, he, stEstablished, stClosed] <;> split <;> rfl
+    | start x =>
+      cases x
+      · simp [Sys.step, Sys.ep, he, stEstablished, stClosed]
+      · by_cases hb : (s.b.st == stClosed) = true <;> simp [Sys.step, Sys.ep, Sys.put, hb]
     | deliver x i =>
       cases x
       · simp only [Sys.step, Sys.hist, Sys.ep, Sys.put]; split <;> rfl
       · simp only [Sys.step, Sys.hist, Sys.ep, Sys.put, Bool.not_true, Bool.false_eq_true, ↓reduceIte]
         split
         · rfl
-        · exact (C04_stale_harmless s.a _ he).1
-    | t1Init x => cases x <;> simp [Sys.step, Sys.ep, Sys.put, t1Init] <;> split <;> rfl
-    | t1Cookie x => cases x <;> simp [Sys.step, Sys.ep, Sys.put, t1Cookie] <;> split <;> rfl
+        · rw [hflush, (C04_stale_harmless s.a _ he).1]
+    | t1Init x =>
+      cases x
+      · simp only [Sys.step, Sys.ep, Sys.put, Bool.false_eq_true, ↓reduceIte]; rw [hflush, ht1i]
+      · rfl
+    | t1Cookie x =>
+      cases x
+      · simp only [Sys.step, Sys.ep, Sys.put, Bool.false_eq_true, ↓reduceIte]; rw [hflush, ht1c]
+      · rfl
+    | t1Queue x c =>
+      cases x
+      · cases c
+        · have := ht1i s.a; simp [Sys.step, Sys.ep, Sys.put, core, this]
+        · have := ht1c s.a; simp [Sys.step, Sys.ep, Sys.put, core, this]
+      · rfl
+    | gather x => cases x <;> rfl
   · intro he
     cases op with
-    | start x => cases x <;> simp [Sys.step, Sys.ep, Sys.put, he, stEstablished, stClosed] <;> split <;> rfl
+    | start x =>
+      cases x
+      · by_cases ha : (s.a.st == stClosed) = true <;> simp [Sys.step, Sys.ep, Sys.put, ha]
+      · simp [Sys.step, Sys.ep, he, stEstablished, stClosed]
     | deliver x i =>
       cases x
       · simp only [Sys.step, Sys.hist, Sys.ep, Sys.put, Bool.not_false, ↓reduceIte, Bool.false_eq_true]
         split
         · rfl
-        · exact (C04_stale_harmless s.b _ he).1
+        · rw [hflush, (C04_stale_harmless s.b _ he).1]
       · simp only [Sys.step, Sys.hist, Sys.ep, Sys.put]; split <;> rfl
-    | t1Init x => cases x <;> simp [Sys.step, Sys.ep, Sys.put, t1Init] <;> split <;> rfl
-    | t1Cookie x => cases x <;> simp [Sys.step, Sys.ep, Sys.put, t1Cookie] <;> split <;> rfl
+    | t1Init x =>
+      cases x
+      · rfl
+      · simp only [Sys.step, Sys.ep, Sys.put, ↓reduceIte]; rw [hflush, ht1i]
+    | t1Cookie x =>
+      cases x
+      · rfl
+      · simp only [Sys.step, Sys.ep, Sys.put, ↓reduceIte]; rw [hflush, ht1c]
+    | t1Queue x c =>
+      cases x
+      · rfl
+      · cases c
+        · have := ht1i s.b; simp [Sys.step, Sys.ep, Sys.put, core, this]
+        · have := ht1c s.b; simp [Sys.step, Sys.ep, Sys.put, core, this]
+    | gather x => cases x <;> rfl
 
 /-- Reachability (non-vacuity and the fault-free liveness case): with no faults the four-packet
 exchange establishes both sides, for every option combination, client/server … -/
